@@ -84,6 +84,217 @@ T gx;        /* ghost abscissa */
 #define same_window(a, b) ((S_START(a) == S_START(b) && S_END(a) == S_END(b)) || (S_SIZE(a) == 0 && S_SIZE(b) == 0))
 
 
+/* ---- exact integrals over [-h, h]:  INT1_n(c0.., h) of one polynomial, INT2_a_b(a0.., b0.., h) of a product.
+ *      Under BS_OPAQUE_INT they are uninterpreted functions (small-instance runs that need congruence only). */
+#ifdef BS_OPAQUE_INT
+T __CPROVER_uninterpreted_int1_1(T, T);
+#define INT1_1(c0, h) __CPROVER_uninterpreted_int1_1(c0, h)
+#else
+#define INT1_1(c0, h) ((c0) * 2 * (h) / 1)
+#endif
+#ifdef BS_OPAQUE_INT
+T __CPROVER_uninterpreted_int1_2(T, T, T);
+#define INT1_2(c0, c1, h) __CPROVER_uninterpreted_int1_2(c0, c1, h)
+#else
+#define INT1_2(c0, c1, h) ((c0) * 2 * (h) / 1)
+#endif
+#ifdef BS_OPAQUE_INT
+T __CPROVER_uninterpreted_int1_3(T, T, T, T);
+#define INT1_3(c0, c1, c2, h) __CPROVER_uninterpreted_int1_3(c0, c1, c2, h)
+#else
+#define INT1_3(c0, c1, c2, h) ((c0) * 2 * (h) / 1 + (c2) * 2 * (h)*(h)*(h) / 3)
+#endif
+#ifdef BS_OPAQUE_INT
+T __CPROVER_uninterpreted_int1_4(T, T, T, T, T);
+#define INT1_4(c0, c1, c2, c3, h) __CPROVER_uninterpreted_int1_4(c0, c1, c2, c3, h)
+#else
+#define INT1_4(c0, c1, c2, c3, h) ((c0) * 2 * (h) / 1 + (c2) * 2 * (h)*(h)*(h) / 3)
+#endif
+#ifdef BS_OPAQUE_INT
+T __CPROVER_uninterpreted_int1_5(T, T, T, T, T, T);
+#define INT1_5(c0, c1, c2, c3, c4, h) __CPROVER_uninterpreted_int1_5(c0, c1, c2, c3, c4, h)
+#else
+#define INT1_5(c0, c1, c2, c3, c4, h) ((c0) * 2 * (h) / 1 + (c2) * 2 * (h)*(h)*(h) / 3 + (c4) * 2 * (h)*(h)*(h)*(h)*(h) / 5)
+#endif
+#ifdef BS_OPAQUE_INT
+T __CPROVER_uninterpreted_int1_6(T, T, T, T, T, T, T);
+#define INT1_6(c0, c1, c2, c3, c4, c5, h) __CPROVER_uninterpreted_int1_6(c0, c1, c2, c3, c4, c5, h)
+#else
+#define INT1_6(c0, c1, c2, c3, c4, c5, h) ((c0) * 2 * (h) / 1 + (c2) * 2 * (h)*(h)*(h) / 3 + (c4) * 2 * (h)*(h)*(h)*(h)*(h) / 5)
+#endif
+#ifdef BS_OPAQUE_INT
+T __CPROVER_uninterpreted_int1_7(T, T, T, T, T, T, T, T);
+#define INT1_7(c0, c1, c2, c3, c4, c5, c6, h) __CPROVER_uninterpreted_int1_7(c0, c1, c2, c3, c4, c5, c6, h)
+#else
+#define INT1_7(c0, c1, c2, c3, c4, c5, c6, h) ((c0) * 2 * (h) / 1 + (c2) * 2 * (h)*(h)*(h) / 3 + (c4) * 2 * (h)*(h)*(h)*(h)*(h) / 5 + (c6) * 2 * (h)*(h)*(h)*(h)*(h)*(h)*(h) / 7)
+#endif
+#ifdef BS_OPAQUE_INT
+T __CPROVER_uninterpreted_int1_8(T, T, T, T, T, T, T, T, T);
+#define INT1_8(c0, c1, c2, c3, c4, c5, c6, c7, h) __CPROVER_uninterpreted_int1_8(c0, c1, c2, c3, c4, c5, c6, c7, h)
+#else
+#define INT1_8(c0, c1, c2, c3, c4, c5, c6, c7, h) ((c0) * 2 * (h) / 1 + (c2) * 2 * (h)*(h)*(h) / 3 + (c4) * 2 * (h)*(h)*(h)*(h)*(h) / 5 + (c6) * 2 * (h)*(h)*(h)*(h)*(h)*(h)*(h) / 7)
+#endif
+#ifdef BS_OPAQUE_INT
+T __CPROVER_uninterpreted_int2_1_1(T, T, T);
+#define INT2_1_1(a0, b0, h) __CPROVER_uninterpreted_int2_1_1(a0, b0, h)
+#else
+#define INT2_1_1(a0, b0, h) ((a0) * (b0) * 2 * (h) / 1)
+#endif
+#ifdef BS_OPAQUE_INT
+T __CPROVER_uninterpreted_int2_1_2(T, T, T, T);
+#define INT2_1_2(a0, b0, b1, h) __CPROVER_uninterpreted_int2_1_2(a0, b0, b1, h)
+#else
+#define INT2_1_2(a0, b0, b1, h) ((a0) * (b0) * 2 * (h) / 1)
+#endif
+#ifdef BS_OPAQUE_INT
+T __CPROVER_uninterpreted_int2_1_3(T, T, T, T, T);
+#define INT2_1_3(a0, b0, b1, b2, h) __CPROVER_uninterpreted_int2_1_3(a0, b0, b1, b2, h)
+#else
+#define INT2_1_3(a0, b0, b1, b2, h) ((a0) * (b0) * 2 * (h) / 1 + (a0) * (b2) * 2 * (h)*(h)*(h) / 3)
+#endif
+#ifdef BS_OPAQUE_INT
+T __CPROVER_uninterpreted_int2_1_4(T, T, T, T, T, T);
+#define INT2_1_4(a0, b0, b1, b2, b3, h) __CPROVER_uninterpreted_int2_1_4(a0, b0, b1, b2, b3, h)
+#else
+#define INT2_1_4(a0, b0, b1, b2, b3, h) ((a0) * (b0) * 2 * (h) / 1 + (a0) * (b2) * 2 * (h)*(h)*(h) / 3)
+#endif
+#ifdef BS_OPAQUE_INT
+T __CPROVER_uninterpreted_int2_1_5(T, T, T, T, T, T, T);
+#define INT2_1_5(a0, b0, b1, b2, b3, b4, h) __CPROVER_uninterpreted_int2_1_5(a0, b0, b1, b2, b3, b4, h)
+#else
+#define INT2_1_5(a0, b0, b1, b2, b3, b4, h) ((a0) * (b0) * 2 * (h) / 1 + (a0) * (b2) * 2 * (h)*(h)*(h) / 3 + (a0) * (b4) * 2 * (h)*(h)*(h)*(h)*(h) / 5)
+#endif
+#ifdef BS_OPAQUE_INT
+T __CPROVER_uninterpreted_int2_2_1(T, T, T, T);
+#define INT2_2_1(a0, a1, b0, h) __CPROVER_uninterpreted_int2_2_1(a0, a1, b0, h)
+#else
+#define INT2_2_1(a0, a1, b0, h) ((a0) * (b0) * 2 * (h) / 1)
+#endif
+#ifdef BS_OPAQUE_INT
+T __CPROVER_uninterpreted_int2_2_2(T, T, T, T, T);
+#define INT2_2_2(a0, a1, b0, b1, h) __CPROVER_uninterpreted_int2_2_2(a0, a1, b0, b1, h)
+#else
+#define INT2_2_2(a0, a1, b0, b1, h) ((a0) * (b0) * 2 * (h) / 1 + (a1) * (b1) * 2 * (h)*(h)*(h) / 3)
+#endif
+#ifdef BS_OPAQUE_INT
+T __CPROVER_uninterpreted_int2_2_3(T, T, T, T, T, T);
+#define INT2_2_3(a0, a1, b0, b1, b2, h) __CPROVER_uninterpreted_int2_2_3(a0, a1, b0, b1, b2, h)
+#else
+#define INT2_2_3(a0, a1, b0, b1, b2, h) ((a0) * (b0) * 2 * (h) / 1 + (a0) * (b2) * 2 * (h)*(h)*(h) / 3 + (a1) * (b1) * 2 * (h)*(h)*(h) / 3)
+#endif
+#ifdef BS_OPAQUE_INT
+T __CPROVER_uninterpreted_int2_2_4(T, T, T, T, T, T, T);
+#define INT2_2_4(a0, a1, b0, b1, b2, b3, h) __CPROVER_uninterpreted_int2_2_4(a0, a1, b0, b1, b2, b3, h)
+#else
+#define INT2_2_4(a0, a1, b0, b1, b2, b3, h) ((a0) * (b0) * 2 * (h) / 1 + (a0) * (b2) * 2 * (h)*(h)*(h) / 3 + (a1) * (b1) * 2 * (h)*(h)*(h) / 3 + (a1) * (b3) * 2 * (h)*(h)*(h)*(h)*(h) / 5)
+#endif
+#ifdef BS_OPAQUE_INT
+T __CPROVER_uninterpreted_int2_2_5(T, T, T, T, T, T, T, T);
+#define INT2_2_5(a0, a1, b0, b1, b2, b3, b4, h) __CPROVER_uninterpreted_int2_2_5(a0, a1, b0, b1, b2, b3, b4, h)
+#else
+#define INT2_2_5(a0, a1, b0, b1, b2, b3, b4, h) ((a0) * (b0) * 2 * (h) / 1 + (a0) * (b2) * 2 * (h)*(h)*(h) / 3 + (a0) * (b4) * 2 * (h)*(h)*(h)*(h)*(h) / 5 + (a1) * (b1) * 2 * (h)*(h)*(h) / 3 + (a1) * (b3) * 2 * (h)*(h)*(h)*(h)*(h) / 5)
+#endif
+#ifdef BS_OPAQUE_INT
+T __CPROVER_uninterpreted_int2_3_1(T, T, T, T, T);
+#define INT2_3_1(a0, a1, a2, b0, h) __CPROVER_uninterpreted_int2_3_1(a0, a1, a2, b0, h)
+#else
+#define INT2_3_1(a0, a1, a2, b0, h) ((a0) * (b0) * 2 * (h) / 1 + (a2) * (b0) * 2 * (h)*(h)*(h) / 3)
+#endif
+#ifdef BS_OPAQUE_INT
+T __CPROVER_uninterpreted_int2_3_2(T, T, T, T, T, T);
+#define INT2_3_2(a0, a1, a2, b0, b1, h) __CPROVER_uninterpreted_int2_3_2(a0, a1, a2, b0, b1, h)
+#else
+#define INT2_3_2(a0, a1, a2, b0, b1, h) ((a0) * (b0) * 2 * (h) / 1 + (a1) * (b1) * 2 * (h)*(h)*(h) / 3 + (a2) * (b0) * 2 * (h)*(h)*(h) / 3)
+#endif
+#ifdef BS_OPAQUE_INT
+T __CPROVER_uninterpreted_int2_3_3(T, T, T, T, T, T, T);
+#define INT2_3_3(a0, a1, a2, b0, b1, b2, h) __CPROVER_uninterpreted_int2_3_3(a0, a1, a2, b0, b1, b2, h)
+#else
+#define INT2_3_3(a0, a1, a2, b0, b1, b2, h) ((a0) * (b0) * 2 * (h) / 1 + (a0) * (b2) * 2 * (h)*(h)*(h) / 3 + (a1) * (b1) * 2 * (h)*(h)*(h) / 3 + (a2) * (b0) * 2 * (h)*(h)*(h) / 3 + (a2) * (b2) * 2 * (h)*(h)*(h)*(h)*(h) / 5)
+#endif
+#ifdef BS_OPAQUE_INT
+T __CPROVER_uninterpreted_int2_3_4(T, T, T, T, T, T, T, T);
+#define INT2_3_4(a0, a1, a2, b0, b1, b2, b3, h) __CPROVER_uninterpreted_int2_3_4(a0, a1, a2, b0, b1, b2, b3, h)
+#else
+#define INT2_3_4(a0, a1, a2, b0, b1, b2, b3, h) ((a0) * (b0) * 2 * (h) / 1 + (a0) * (b2) * 2 * (h)*(h)*(h) / 3 + (a1) * (b1) * 2 * (h)*(h)*(h) / 3 + (a1) * (b3) * 2 * (h)*(h)*(h)*(h)*(h) / 5 + (a2) * (b0) * 2 * (h)*(h)*(h) / 3 + (a2) * (b2) * 2 * (h)*(h)*(h)*(h)*(h) / 5)
+#endif
+#ifdef BS_OPAQUE_INT
+T __CPROVER_uninterpreted_int2_3_5(T, T, T, T, T, T, T, T, T);
+#define INT2_3_5(a0, a1, a2, b0, b1, b2, b3, b4, h) __CPROVER_uninterpreted_int2_3_5(a0, a1, a2, b0, b1, b2, b3, b4, h)
+#else
+#define INT2_3_5(a0, a1, a2, b0, b1, b2, b3, b4, h) ((a0) * (b0) * 2 * (h) / 1 + (a0) * (b2) * 2 * (h)*(h)*(h) / 3 + (a0) * (b4) * 2 * (h)*(h)*(h)*(h)*(h) / 5 + (a1) * (b1) * 2 * (h)*(h)*(h) / 3 + (a1) * (b3) * 2 * (h)*(h)*(h)*(h)*(h) / 5 + (a2) * (b0) * 2 * (h)*(h)*(h) / 3 + (a2) * (b2) * 2 * (h)*(h)*(h)*(h)*(h) / 5 + (a2) * (b4) * 2 * (h)*(h)*(h)*(h)*(h)*(h)*(h) / 7)
+#endif
+#ifdef BS_OPAQUE_INT
+T __CPROVER_uninterpreted_int2_4_1(T, T, T, T, T, T);
+#define INT2_4_1(a0, a1, a2, a3, b0, h) __CPROVER_uninterpreted_int2_4_1(a0, a1, a2, a3, b0, h)
+#else
+#define INT2_4_1(a0, a1, a2, a3, b0, h) ((a0) * (b0) * 2 * (h) / 1 + (a2) * (b0) * 2 * (h)*(h)*(h) / 3)
+#endif
+#ifdef BS_OPAQUE_INT
+T __CPROVER_uninterpreted_int2_4_2(T, T, T, T, T, T, T);
+#define INT2_4_2(a0, a1, a2, a3, b0, b1, h) __CPROVER_uninterpreted_int2_4_2(a0, a1, a2, a3, b0, b1, h)
+#else
+#define INT2_4_2(a0, a1, a2, a3, b0, b1, h) ((a0) * (b0) * 2 * (h) / 1 + (a1) * (b1) * 2 * (h)*(h)*(h) / 3 + (a2) * (b0) * 2 * (h)*(h)*(h) / 3 + (a3) * (b1) * 2 * (h)*(h)*(h)*(h)*(h) / 5)
+#endif
+#ifdef BS_OPAQUE_INT
+T __CPROVER_uninterpreted_int2_4_3(T, T, T, T, T, T, T, T);
+#define INT2_4_3(a0, a1, a2, a3, b0, b1, b2, h) __CPROVER_uninterpreted_int2_4_3(a0, a1, a2, a3, b0, b1, b2, h)
+#else
+#define INT2_4_3(a0, a1, a2, a3, b0, b1, b2, h) ((a0) * (b0) * 2 * (h) / 1 + (a0) * (b2) * 2 * (h)*(h)*(h) / 3 + (a1) * (b1) * 2 * (h)*(h)*(h) / 3 + (a2) * (b0) * 2 * (h)*(h)*(h) / 3 + (a2) * (b2) * 2 * (h)*(h)*(h)*(h)*(h) / 5 + (a3) * (b1) * 2 * (h)*(h)*(h)*(h)*(h) / 5)
+#endif
+#ifdef BS_OPAQUE_INT
+T __CPROVER_uninterpreted_int2_4_4(T, T, T, T, T, T, T, T, T);
+#define INT2_4_4(a0, a1, a2, a3, b0, b1, b2, b3, h) __CPROVER_uninterpreted_int2_4_4(a0, a1, a2, a3, b0, b1, b2, b3, h)
+#else
+#define INT2_4_4(a0, a1, a2, a3, b0, b1, b2, b3, h) ((a0) * (b0) * 2 * (h) / 1 + (a0) * (b2) * 2 * (h)*(h)*(h) / 3 + (a1) * (b1) * 2 * (h)*(h)*(h) / 3 + (a1) * (b3) * 2 * (h)*(h)*(h)*(h)*(h) / 5 + (a2) * (b0) * 2 * (h)*(h)*(h) / 3 + (a2) * (b2) * 2 * (h)*(h)*(h)*(h)*(h) / 5 + (a3) * (b1) * 2 * (h)*(h)*(h)*(h)*(h) / 5 + (a3) * (b3) * 2 * (h)*(h)*(h)*(h)*(h)*(h)*(h) / 7)
+#endif
+#ifdef BS_OPAQUE_INT
+T __CPROVER_uninterpreted_int2_4_5(T, T, T, T, T, T, T, T, T, T);
+#define INT2_4_5(a0, a1, a2, a3, b0, b1, b2, b3, b4, h) __CPROVER_uninterpreted_int2_4_5(a0, a1, a2, a3, b0, b1, b2, b3, b4, h)
+#else
+#define INT2_4_5(a0, a1, a2, a3, b0, b1, b2, b3, b4, h) ((a0) * (b0) * 2 * (h) / 1 + (a0) * (b2) * 2 * (h)*(h)*(h) / 3 + (a0) * (b4) * 2 * (h)*(h)*(h)*(h)*(h) / 5 + (a1) * (b1) * 2 * (h)*(h)*(h) / 3 + (a1) * (b3) * 2 * (h)*(h)*(h)*(h)*(h) / 5 + (a2) * (b0) * 2 * (h)*(h)*(h) / 3 + (a2) * (b2) * 2 * (h)*(h)*(h)*(h)*(h) / 5 + (a2) * (b4) * 2 * (h)*(h)*(h)*(h)*(h)*(h)*(h) / 7 + (a3) * (b1) * 2 * (h)*(h)*(h)*(h)*(h) / 5 + (a3) * (b3) * 2 * (h)*(h)*(h)*(h)*(h)*(h)*(h) / 7)
+#endif
+#ifdef BS_OPAQUE_INT
+T __CPROVER_uninterpreted_int2_5_1(T, T, T, T, T, T, T);
+#define INT2_5_1(a0, a1, a2, a3, a4, b0, h) __CPROVER_uninterpreted_int2_5_1(a0, a1, a2, a3, a4, b0, h)
+#else
+#define INT2_5_1(a0, a1, a2, a3, a4, b0, h) ((a0) * (b0) * 2 * (h) / 1 + (a2) * (b0) * 2 * (h)*(h)*(h) / 3 + (a4) * (b0) * 2 * (h)*(h)*(h)*(h)*(h) / 5)
+#endif
+#ifdef BS_OPAQUE_INT
+T __CPROVER_uninterpreted_int2_5_2(T, T, T, T, T, T, T, T);
+#define INT2_5_2(a0, a1, a2, a3, a4, b0, b1, h) __CPROVER_uninterpreted_int2_5_2(a0, a1, a2, a3, a4, b0, b1, h)
+#else
+#define INT2_5_2(a0, a1, a2, a3, a4, b0, b1, h) ((a0) * (b0) * 2 * (h) / 1 + (a1) * (b1) * 2 * (h)*(h)*(h) / 3 + (a2) * (b0) * 2 * (h)*(h)*(h) / 3 + (a3) * (b1) * 2 * (h)*(h)*(h)*(h)*(h) / 5 + (a4) * (b0) * 2 * (h)*(h)*(h)*(h)*(h) / 5)
+#endif
+#ifdef BS_OPAQUE_INT
+T __CPROVER_uninterpreted_int2_5_3(T, T, T, T, T, T, T, T, T);
+#define INT2_5_3(a0, a1, a2, a3, a4, b0, b1, b2, h) __CPROVER_uninterpreted_int2_5_3(a0, a1, a2, a3, a4, b0, b1, b2, h)
+#else
+#define INT2_5_3(a0, a1, a2, a3, a4, b0, b1, b2, h) ((a0) * (b0) * 2 * (h) / 1 + (a0) * (b2) * 2 * (h)*(h)*(h) / 3 + (a1) * (b1) * 2 * (h)*(h)*(h) / 3 + (a2) * (b0) * 2 * (h)*(h)*(h) / 3 + (a2) * (b2) * 2 * (h)*(h)*(h)*(h)*(h) / 5 + (a3) * (b1) * 2 * (h)*(h)*(h)*(h)*(h) / 5 + (a4) * (b0) * 2 * (h)*(h)*(h)*(h)*(h) / 5 + (a4) * (b2) * 2 * (h)*(h)*(h)*(h)*(h)*(h)*(h) / 7)
+#endif
+#ifdef BS_OPAQUE_INT
+T __CPROVER_uninterpreted_int2_5_4(T, T, T, T, T, T, T, T, T, T);
+#define INT2_5_4(a0, a1, a2, a3, a4, b0, b1, b2, b3, h) __CPROVER_uninterpreted_int2_5_4(a0, a1, a2, a3, a4, b0, b1, b2, b3, h)
+#else
+#define INT2_5_4(a0, a1, a2, a3, a4, b0, b1, b2, b3, h) ((a0) * (b0) * 2 * (h) / 1 + (a0) * (b2) * 2 * (h)*(h)*(h) / 3 + (a1) * (b1) * 2 * (h)*(h)*(h) / 3 + (a1) * (b3) * 2 * (h)*(h)*(h)*(h)*(h) / 5 + (a2) * (b0) * 2 * (h)*(h)*(h) / 3 + (a2) * (b2) * 2 * (h)*(h)*(h)*(h)*(h) / 5 + (a3) * (b1) * 2 * (h)*(h)*(h)*(h)*(h) / 5 + (a3) * (b3) * 2 * (h)*(h)*(h)*(h)*(h)*(h)*(h) / 7 + (a4) * (b0) * 2 * (h)*(h)*(h)*(h)*(h) / 5 + (a4) * (b2) * 2 * (h)*(h)*(h)*(h)*(h)*(h)*(h) / 7)
+#endif
+#ifdef BS_OPAQUE_INT
+T __CPROVER_uninterpreted_int2_5_5(T, T, T, T, T, T, T, T, T, T, T);
+#define INT2_5_5(a0, a1, a2, a3, a4, b0, b1, b2, b3, b4, h) __CPROVER_uninterpreted_int2_5_5(a0, a1, a2, a3, a4, b0, b1, b2, b3, b4, h)
+#else
+#define INT2_5_5(a0, a1, a2, a3, a4, b0, b1, b2, b3, b4, h) ((a0) * (b0) * 2 * (h) / 1 + (a0) * (b2) * 2 * (h)*(h)*(h) / 3 + (a0) * (b4) * 2 * (h)*(h)*(h)*(h)*(h) / 5 + (a1) * (b1) * 2 * (h)*(h)*(h) / 3 + (a1) * (b3) * 2 * (h)*(h)*(h)*(h)*(h) / 5 + (a2) * (b0) * 2 * (h)*(h)*(h) / 3 + (a2) * (b2) * 2 * (h)*(h)*(h)*(h)*(h) / 5 + (a2) * (b4) * 2 * (h)*(h)*(h)*(h)*(h)*(h)*(h) / 7 + (a3) * (b1) * 2 * (h)*(h)*(h)*(h)*(h) / 5 + (a3) * (b3) * 2 * (h)*(h)*(h)*(h)*(h)*(h)*(h) / 7 + (a4) * (b0) * 2 * (h)*(h)*(h)*(h)*(h) / 5 + (a4) * (b2) * 2 * (h)*(h)*(h)*(h)*(h)*(h)*(h) / 7 + (a4) * (b4) * 2 * (h)*(h)*(h)*(h)*(h)*(h)*(h)*(h)*(h) / 9)
+#endif
+
+/* ---- generator: the l-th knot */
+#define KN(gen, l) ((gen)._knots.d[l])
+
+/* selection between the quantified form of a statement and its written-out small-instance form */
+#if BS_CAP > 16
+#define BS_SEL(q, u) q
+#else
+#define BS_SEL(q, u) u
+#endif
+
 /* ---- ghost prefix sums for the accumulation loops of the forms: BS_SUM(k) is the sum of the first k terms */
 struct bs_sum_t { T s[BS_CAP + 1]; } BS_SUMS;
 #define BS_SUM(k) (BS_SUMS.s[k])
